@@ -278,6 +278,10 @@ class FibRun:
         elif a == 'Shutdown':
             self.app.shutdown()
             loop.settle(timers_now=False)
+        elif a == 'Connect':
+            # main_loop again on the same application object (the previous one has returned)
+            self.main = self.sess.spawn(self.app.main_loop())
+            loop.settle(timers_now=False)
         elif a == 'RecvJunk':
             w = bytes.fromhex(ev['hex'])
             ex = deliver(self.sess, self.face, w, timers_now=False) if len(w) > 0 else None
@@ -325,7 +329,7 @@ class DispatcherRun:
             ret = self.d.dispatch(enc.Name.from_str(nm(ev['it']['name'])), enc.InterestParam(nonce=NONCE0 + self.nint), None)
             if bool(ret) != (len(self.handled) > before):
                 self.bg.append('dispatch-return-value-untruthful')
-        elif a in ('Tick', 'RecvJunk', 'Shutdown'):
+        elif a in ('Tick', 'RecvJunk', 'Shutdown', 'Connect'):
             pass
         else:
             raise ValueError(a)
